@@ -59,3 +59,10 @@ class SplitNamespec:
 
     def post_process_name(namespec, result):
         return result[1] is None or (result[1] != '' and result[1] != '*')
+
+
+@external('traceback.format_exc')
+class TracebackFormatExc:
+    """text of the exception being handled (only logged)"""
+    returns = 'str'
+    params = []
